@@ -7,7 +7,7 @@ import hashlib
 import os
 
 from checks.common import Reporter, confirm_minimise_report, default_workers, run_regressions
-from simkit.core import Evidence, log, merge_counts, run_seed
+from simkit.core import mark_cover, reach_report, Evidence, log, merge_counts, run_seed
 from simkit.pool import ZygotePool, unwrap
 from worlds import dechist
 
@@ -62,6 +62,7 @@ def main(tier: str, seed: int, opts) -> int:
     log(f"[C08] VERIF_SEED={seed} tier={tier} sessions={len(jobs)}")
     with ZygotePool(workers=default_workers(), preload="worlds.dechist") as pool:
         n_reg = run_regressions(rep, pool, PROP)
+        mark_cover(jobs)
         raw_results = pool.map(jobs, progress="C08")
         stats: dict = {}
         hashes, nthashes, opkinds = set(), set(), set()
@@ -104,6 +105,7 @@ def main(tier: str, seed: int, opts) -> int:
             samples.append({"documents": [canonical_text(d)[:1200] for d in s0["case"]["docs"]],
                             "instances": s0["case"]["instances"], "ops": s0["case"]["ops"]})
     sessions = sum(by_source.values())
+    cover_hits = set(pool.cover_hits)
     ev.cov.update({
         "evaluations": sessions,
         "distinct_nontrivial": len(nthashes),
@@ -123,6 +125,7 @@ def main(tier: str, seed: int, opts) -> int:
         "operation_outcome_kinds_reached": sorted(opkinds),
         "file_sessions_over_time_budget": harness_timeouts,
         "regression_replays_run": n_reg,
+        "anchored_code_reach": reach_report(PROP, cover_hits),
         "log_digest": digest.hexdigest(),
         "components": {"real": ["decaylanguage.dec.dec (everything)", "decfile.lark", "lark", "particle", "DecayChainViewer / DecayChain.from_dict / _expand_decay_modes as consumers"],
                        "simulated": ["the caller (operation schedule)", "file system under /simfs for instances built from files", "exceptions injected via sys.settrace"],
